@@ -1,7 +1,7 @@
 #!/bin/bash
 # dbg.sh <workdir> <engine> <global case index> '<Coq expression over c>' : evaluate an expression on one case of a generated cases file
 D=$1; E=$2; I=$3; X=$4
-SH=$((I/400)); K=$((I%400))
+SH=$((I/${SHARD:-400})); K=$((I%${SHARD:-400}))
 F=$D/cases_${E}_$SH.v
 head -n -4 $F > $D/dbg.v
 echo "Definition DBG := Eval vm_compute in (match nth_error cases $K with Some c => Some ($X) | None => None end). Print DBG." >> $D/dbg.v
